@@ -52,6 +52,8 @@ type ReqObjCase struct {
 	Outer     OuterSpec `json:"outer"`
 	Obj       ObjSpec   `json:"obj"`
 	Origin    string    `json:"origin"`
+	// RTRel: how the generator derived the object's response_type from the outer one (label only; the model looks at the strings)
+	RTRel string `json:"rt_rel,omitempty"`
 	// KeyFault: how the storage answers the key lookup for the object (see AssertCase.KeyFault)
 	KeyFault string `json:"key_fault,omitempty"`
 }
@@ -66,6 +68,7 @@ const (
 func genReqObj(t *rapid.T, c *Case) *ReqObjCase {
 	r := &ReqObjCase{}
 	r.Via = rapid.SampledFrom([]string{"http", "http", "direct"}).Draw(t, "via")
+	c.Issuer += rapid.SampledFrom(issuerTails).Draw(t, "issuer-tail")
 	n := len(c.Clients)
 	x := rapid.IntRange(0, n-1).Draw(t, "requester")
 	r.Requester = x
@@ -74,7 +77,7 @@ func genReqObj(t *rapid.T, c *Case) *ReqObjCase {
 	Y := &c.Clients[y]
 
 	r.Outer = OuterSpec{
-		ResponseType: rapid.SampledFrom([]string{"code", "code", "id_token"}).Draw(t, "rt"),
+		ResponseType: rapid.SampledFrom(outerResponseTypes).Draw(t, "rt"),
 		RedirectURI:  X.RedirectURIs[0],
 		Scope:        "openid " + plainOnlyScope,
 		State:        rapid.SampledFrom([]string{"plain-state", "plain-state", ""}).Draw(t, "state"),
@@ -114,7 +117,7 @@ func genReqObj(t *rapid.T, c *Case) *ReqObjCase {
 	nmut := rapid.SampledFrom([]int{0, 0, 1, 1, 1, 1, 1, 2, 2}).Draw(t, "nmut")
 	var origin []string
 	for i := 0; i < nmut; i++ {
-		dim := rapid.SampledFrom([]string{"signer", "signer", "signer", "foreign", "foreign", "iss", "aud", "aud", "client_id", "response_type", "kid", "mangle", "mangle", "mangle"}).Draw(t, "dim")
+		dim := rapid.SampledFrom([]string{"signer", "signer", "signer", "foreign", "foreign", "iss", "aud", "aud", "client_id", "response_type", "kid", "mangle", "mangle", "mangle", "response_type", "response_type", "response_type", "client_id", "aud"}).Draw(t, "dim")
 		origin = append(origin, dim)
 		switch dim {
 		case "signer":
@@ -154,15 +157,23 @@ func genReqObj(t *rapid.T, c *Case) *ReqObjCase {
 			o.Iss = rapid.SampledFrom([]*string{sp(Y.ID), sp(""), nil, sp("c-zeta")}).Draw(t, "iss")
 		case "aud":
 			is := c.Issuer
+			if rapid.Bool().Draw(t, "audnear") {
+				o.Aud = genNearMissAud(t, is)
+				break
+			}
 			o.Aud = rapid.SampledFrom([]any{is, []string{is, "https://other.example.net"}, nil, []string{}, "https://other.example.net", []string{"https://other.example.net"}, is + "/", strings.ToUpper(is), X.ID}).Draw(t, "aud")
 		case "client_id":
-			o.ClientID = rapid.SampledFrom([]*string{sp(Y.ID), nil, sp(""), sp("c-zeta")}).Draw(t, "cid")
-		case "response_type":
-			otherRT := "id_token"
-			if r.Outer.ResponseType == "id_token" {
-				otherRT = "code"
+			// another client, nothing, an unknown one, or a near-miss of the requester's id (case, blank, cut, extended)
+			o.ClientID = rapid.SampledFrom([]*string{sp(Y.ID), nil, sp(""), sp("c-zeta"),
+				sp(strings.ToUpper(X.ID)), sp(X.ID + " "), sp(" " + X.ID), sp(X.ID[:len(X.ID)-1]), sp(X.ID + "2"), sp(X.ID + "/"), sp(X.ID + " " + Y.ID)}).Draw(t, "cid")
+			if rapid.Bool().Draw(t, "cid-iss-follows") && o.ClientID != nil {
+				// (the library wants iss == client_id: with the issuer following, the near-miss reaches the key lookup)
+				o.Iss = sp(*o.ClientID)
 			}
-			o.ResponseType = rapid.SampledFrom([]*string{sp(otherRT), sp(otherRT), nil}).Draw(t, "ort")
+		case "response_type":
+			// the object's response_type in every relation to the outer one
+			r.RTRel = rapid.SampledFrom(rtRelations).Draw(t, "rtrel")
+			o.ResponseType, r.Outer.ResponseType = deriveResponseType(r.RTRel, r.Outer.ResponseType, rapid.IntRange(0, 5).Draw(t, "rtpick"))
 		case "kid":
 			opts := []*string{nil, sp("unknown-kid")}
 			for _, k := range sortedKids(X) {
@@ -177,6 +188,143 @@ func genReqObj(t *rapid.T, c *Case) *ReqObjCase {
 	r.Origin = strings.Join(origin, "+")
 	r.KeyFault = rapid.SampledFrom(keyFaults).Draw(t, "keyfault")
 	return r
+}
+
+// outer response types: single-valued and the multi-valued ones of "OAuth 2.0 Multiple Response Type Encoding Practices"
+// (every client registers all of them, genClients)
+var (
+	outerResponseTypes = []string{"code", "code", "code", "id_token", "id_token token", "code id_token", "code id_token token", "code token"}
+	rtValues           = []string{"code", "id_token", "token"}
+	rtRelations        = []string{"other", "absent", "empty", "permuted", "subset", "subset", "superset", "disjoint", "duplicated", "case", "case", "spacing", "outer-absent", "outer-subset"}
+)
+
+// deriveResponseType builds the object's response_type in the named relation to the outer one; relations that need a
+// multi-valued outer response_type widen a single-valued one first. Returns (object value, outer value).
+func deriveResponseType(rel, outer string, pick int) (*string, string) {
+	f := strings.Fields(outer)
+	if len(f) == 0 && rel != "absent" && rel != "empty" {
+		// (an earlier mutation already took the response_type out of the plain query)
+		return sp("code"), outer
+	}
+	widen := func() {
+		if len(f) < 2 {
+			switch outer {
+			case "id_token":
+				outer = "id_token token"
+			default:
+				outer = []string{"code id_token", "code token", "code id_token token"}[pick%3]
+			}
+			f = strings.Fields(outer)
+		}
+	}
+	missing := func() []string {
+		var out []string
+		for _, v := range rtValues {
+			if !contains(f, v) {
+				out = append(out, v)
+			}
+		}
+		if len(out) == 0 {
+			out = []string{"none"}
+		}
+		return out
+	}
+	switch rel {
+	case "absent":
+		return nil, outer
+	case "empty":
+		return sp(""), outer
+	case "permuted":
+		widen()
+		g := append([]string{}, f[1:]...)
+		g = append(g, f[0]) // rotation: a different order of the same values
+		return sp(strings.Join(g, " ")), outer
+	case "subset":
+		widen()
+		i := pick % len(f)
+		g := append(append([]string{}, f[:i]...), f[i+1:]...)
+		return sp(strings.Join(g, " ")), outer
+	case "superset":
+		m := missing()
+		return sp(outer + " " + m[pick%len(m)]), outer
+	case "outer-subset":
+		// the same relation seen from the other side: the plain query drops a value of the (multi-valued) object
+		widen()
+		i := pick % len(f)
+		g := append(append([]string{}, f[:i]...), f[i+1:]...)
+		return sp(outer), strings.Join(g, " ")
+	case "disjoint":
+		m := missing()
+		return sp(m[pick%len(m)]), outer
+	case "duplicated":
+		return sp(outer + " " + f[pick%len(f)]), outer
+	case "case":
+		if pick%2 == 0 {
+			return sp(strings.ToUpper(outer)), outer
+		}
+		return sp(strings.ToUpper(outer[:1]) + outer[1:]), outer
+	case "spacing":
+		switch pick % 3 {
+		case 0:
+			return sp(outer + " "), outer
+		case 1:
+			return sp(" " + outer), outer
+		}
+		widen()
+		return sp(strings.Join(f, "  ")), outer
+	case "outer-absent":
+		return sp(outer), ""
+	}
+	// "other": a different single value
+	m := missing()
+	if len(f) > 1 {
+		return sp(f[pick%len(f)]), outer
+	}
+	return sp(m[pick%len(m)]), outer
+}
+
+// responseTypeAgreement classifies the two strings from the statement's point of view:
+//
+//	object-silent  the object carries no response_type (absent / empty string): nothing to disagree with   -> agrees
+//	equal          the same string                                                                        -> agrees
+//	differs        the sets of space-delimited values differ (subset, superset, disjoint, other case)      -> disagrees
+//	same-values    the same set of values in another order / with repetitions / other spacing             -> not decided (grey)
+//	outer-silent   the plain query carries no response_type although the object does                      -> not decided (grey)
+//	object-blank   the object's value consists of blanks only                                             -> not decided (grey)
+func responseTypeAgreement(obj *string, outer string) string {
+	if obj == nil || *obj == "" {
+		return "object-silent"
+	}
+	if *obj == outer {
+		return "equal"
+	}
+	of, uf := strings.Fields(*obj), strings.Fields(outer)
+	switch {
+	case len(of) == 0:
+		return "object-blank"
+	case len(uf) == 0:
+		return "outer-silent"
+	}
+	set := func(l []string) map[string]bool {
+		m := map[string]bool{}
+		for _, x := range l {
+			m[x] = true
+		}
+		return m
+	}
+	so, su := set(of), set(uf)
+	if len(so) == len(su) {
+		same := true
+		for k := range so {
+			if !su[k] {
+				same = false
+			}
+		}
+		if same {
+			return "same-values"
+		}
+	}
+	return "differs"
 }
 
 // ---- forge -----------------------------------------------------------------------------------
@@ -214,10 +362,10 @@ func objectPayload(o ObjSpec, nowUnix int64) []byte {
 // ---- model ------------------------------------------------------------------------------------
 
 // failedConditions lists which of the statement's conditions for honouring the object do not hold.
-func failedConditions(c Case, r *ReqObjCase, issuer string) []string {
+// undecided: relations the statement does not decide (neither honouring nor ignoring the object is judged when nothing fails).
+func failedConditions(c Case, r *ReqObjCase, issuer string) (failed, undecided []string) {
 	X := &c.Clients[r.Requester]
 	o := r.Obj
-	var failed []string
 	// signed by the requesting client
 	_, held, _ := keyRelation(c, sp(X.ID), o.Tok)
 	if !held {
@@ -238,17 +386,21 @@ func failedConditions(c Case, r *ReqObjCase, issuer string) []string {
 	if o.ClientID != nil && *o.ClientID != "" && *o.ClientID != X.ID {
 		failed = append(failed, "client_id")
 	}
-	if o.ResponseType != nil && *o.ResponseType != "" && *o.ResponseType != r.Outer.ResponseType {
+	switch agr := responseTypeAgreement(o.ResponseType, r.Outer.ResponseType); agr {
+	case "object-silent", "equal":
+	case "differs":
 		failed = append(failed, "response_type")
+	default:
+		undecided = append(undecided, "response_type:"+agr)
 	}
 	sort.Strings(failed)
-	return failed
+	return failed, undecided
 }
 
 // observed request parameters after the library processed the request
 type seenParams struct {
 	RedirectURI, State, Nonce, Challenge, LoginHint string
-	Scopes                                           []string
+	Scopes                                          []string
 }
 
 // usedFromObject lists the overriding parameters whose object value (different from the plain value) is in effect.
@@ -300,8 +452,23 @@ func runReqObj(c Case, res *vkit.Result) {
 		res.Label("unrealisable-token")
 		return
 	}
-	failed := failedConditions(c, r, issuer)
-	valid := len(failed) == 0
+	failed, undecided := failedConditions(c, r, issuer)
+	invalid := len(failed) > 0
+	valid := !invalid && len(undecided) == 0
+	rtAgr := responseTypeAgreement(r.Obj.ResponseType, r.Outer.ResponseType)
+	res.Label("ro:rt:"+rtAgr, "ro:rt-outer:"+rtShape(r.Outer.ResponseType))
+	if r.RTRel != "" {
+		res.Label("ro:rt-rel:" + r.RTRel + ":" + rtAgr)
+	}
+	if len(failed) == 1 {
+		res.Label("ro:fails-only:" + failed[0]) // every other condition holds: the case discriminates exactly this clause
+		if failed[0] == "response_type" && r.RTRel != "" {
+			res.Label("ro:fails-only:response_type:" + r.RTRel)
+		}
+		if failed[0] == "aud" {
+			res.Label("ro:fails-only:aud:" + audClass(r.Obj.Aud, issuer))
+		}
+	}
 	if knownKeyFault(r.KeyFault) {
 		res.Label("ro:keyfault:" + r.KeyFault)
 		if len(failed) == 1 {
@@ -337,7 +504,10 @@ func runReqObj(c Case, res *vkit.Result) {
 			outcome = "no-error"
 		}
 	default:
-		q := url.Values{"client_id": {X.ID}, "response_type": {r.Outer.ResponseType}, "redirect_uri": {r.Outer.RedirectURI}, "scope": {r.Outer.Scope}, "request": {jwt}}
+		q := url.Values{"client_id": {X.ID}, "redirect_uri": {r.Outer.RedirectURI}, "scope": {r.Outer.Scope}, "request": {jwt}}
+		if r.Outer.ResponseType != "" {
+			q.Set("response_type", r.Outer.ResponseType)
+		}
 		set := func(k, v string) {
 			if v != "" {
 				q.Set(k, v)
@@ -375,7 +545,7 @@ func runReqObj(c Case, res *vkit.Result) {
 		} else {
 			outcome = "refused"
 			// a refusal must not travel to the object's redirect_uri / carry the object's state either
-			if !valid && resp.IsRedirect() {
+			if invalid && resp.IsRedirect() {
 				loc := resp.Location()
 				if r.Obj.RedirectURI != nil && *r.Obj.RedirectURI != r.Outer.RedirectURI && strings.HasPrefix(loc, *r.Obj.RedirectURI) {
 					res.Fail("C14:reqobj-error-redirect-uses-object:"+strings.Join(failed, "+"), "error redirected to the redirect_uri of an object that fails %v: %s", failed, loc)
@@ -391,7 +561,22 @@ func runReqObj(c Case, res *vkit.Result) {
 	if haveSeen {
 		used, plain = usedFromObject(r, seen)
 	}
-	if valid {
+	if !valid && !invalid {
+		// nothing fails, but the statement does not say whether these two response types agree: observed, not judged
+		res.Label("ro:undecided")
+		for _, u := range undecided {
+			res.Label("ro:undecided:" + u)
+		}
+		switch {
+		case len(used) > 0:
+			res.Label("ro:undecided:object-used")
+		case outcome == "refused" || outcome == "error":
+			res.Label("ro:undecided:refused")
+		default:
+			res.Label("ro:undecided:plain-used")
+		}
+		res.Grey = true
+	} else if valid {
 		res.Label("ro:valid")
 		switch {
 		case len(used) > 0 && len(plain) == 0:
@@ -428,10 +613,20 @@ func runReqObj(c Case, res *vkit.Result) {
 			res.Label("ro:mangle-only:" + mangleClass(m)) // perfect claims, only the JOSE layer is broken
 		}
 	}
-	res.Info = map[string]any{"valid": valid, "failed": failed, "outcome": outcome, "object_params_in_effect": used, "plain_params_in_effect": plain, "observed": info}
+	res.Info = map[string]any{"valid": valid, "failed": failed, "undecided": undecided, "outcome": outcome, "object_params_in_effect": used, "plain_params_in_effect": plain, "observed": info}
 	res.NonTrivial = !valid || len(used) > 0
-	res.Key = fmt.Sprintf("reqobj|%s|%s|failed=%v|signer=%s|sig=%s|rt=%s|fields=%s|objuri=%s|outcome=%s|used=%v|kf=%s",
-		r.Via, c.Router, failed, rel, r.Obj.Tok.Sig+"/"+r.Obj.Tok.Mangle, r.Outer.ResponseType, overrideMask(r.Obj), uriClass(X, r.Obj.RedirectURI), outcome, used, r.KeyFault)
+	res.Key = fmt.Sprintf("reqobj|%s|%s|failed=%v|und=%v|signer=%s|sig=%s|rt=%s/%s|fields=%s|objuri=%s|outcome=%s|used=%v|kf=%s",
+		r.Via, c.Router, failed, undecided, rel, r.Obj.Tok.Sig+"/"+r.Obj.Tok.Mangle, r.Outer.ResponseType, strOr(r.Obj.ResponseType), overrideMask(r.Obj), uriClass(X, r.Obj.RedirectURI), outcome, used, r.KeyFault)
+}
+
+func rtShape(rt string) string {
+	switch n := len(strings.Fields(rt)); {
+	case n == 0:
+		return "absent"
+	case n == 1:
+		return "single"
+	}
+	return "multi"
 }
 
 func overrideMask(o ObjSpec) string {
